@@ -306,3 +306,101 @@ func strconvParseFloat(s string) (float64, error) {
 }
 
 func strconvFormat(f float64) string { return strconv.FormatFloat(f, 'g', -1, 64) }
+
+// fold.flatindex (C06): a flattening function (self-recursive over .Components,
+// returning the scalar handles of a nested constructor) gives the elements of a
+// VECTOR. A folder of ExprAccessIndex that indexes the flattened list with the
+// access index must first establish that the base IS a vector (a type assertion
+// to ir.VectorType): element 1 of array<vec2<i32>, 2>(vec2(1, 2), vec2(3, 4)) is
+// vec2(3, 4), not the scalar 2, and column 1 of a matrix is a vector.
+func (c *Ctx) runFoldFlatIndex(r *Report, rule string, pkg string) {
+	n := 0
+	flatteners := map[*types.Func]bool{}
+	for _, fn := range c.allFuncs() {
+		if fn.Pkg.Rel != pkg || fn.Obj == nil {
+			continue
+		}
+		sig := fn.Obj.Type().(*types.Signature)
+		if sig.Results().Len() < 1 {
+			continue
+		}
+		sl, ok := sig.Results().At(0).Type().(*types.Slice)
+		if !ok || irTypeName(sl.Elem()) != "ExpressionHandle" {
+			continue
+		}
+		selfRec, overComponents := false, false
+		ast.Inspect(fn.Decl.Body, func(m ast.Node) bool {
+			switch x := m.(type) {
+			case *ast.CallExpr:
+				if f := calleeOf(fn.Pkg.Info, x); f != nil && f.Origin() == fn.Obj {
+					selfRec = true
+				}
+			case *ast.RangeStmt:
+				if se, ok := ast.Unparen(x.X).(*ast.SelectorExpr); ok && se.Sel.Name == "Components" {
+					overComponents = true
+				}
+			}
+			return true
+		})
+		if selfRec && overComponents {
+			flatteners[fn.Obj] = true
+		}
+	}
+	r.inst("fold.flatteners", len(flatteners))
+	for _, fn := range c.allFuncs() {
+		if fn.Pkg.Rel != pkg || fn.Obj == nil || flatteners[fn.Obj] {
+			continue
+		}
+		info := fn.Pkg.Info
+		sig := fn.Obj.Type().(*types.Signature)
+		takesAccessIndex := false
+		for i := 0; i < sig.Params().Len(); i++ {
+			if irTypeName(sig.Params().At(i).Type()) == "ExprAccessIndex" {
+				takesAccessIndex = true
+			}
+		}
+		if !takesAccessIndex {
+			continue
+		}
+		flatVars := map[types.Object]bool{}
+		ast.Inspect(fn.Decl.Body, func(m ast.Node) bool {
+			if as, ok := m.(*ast.AssignStmt); ok && len(as.Rhs) == 1 {
+				if call, ok := ast.Unparen(as.Rhs[0]).(*ast.CallExpr); ok {
+					if f := calleeOf(info, call); f != nil && flatteners[f.Origin()] {
+						if id, ok := as.Lhs[0].(*ast.Ident); ok {
+							flatVars[info.ObjectOf(id)] = true
+						}
+					}
+				}
+			}
+			return true
+		})
+		indexed := false
+		ast.Inspect(fn.Decl.Body, func(m ast.Node) bool {
+			if ix, ok := m.(*ast.IndexExpr); ok {
+				if id, ok := ast.Unparen(ix.X).(*ast.Ident); ok && flatVars[info.Uses[id]] {
+					indexed = true
+				}
+			}
+			return true
+		})
+		if !indexed {
+			continue
+		}
+		n++
+		vecTest := false
+		ast.Inspect(fn.Decl.Body, func(m ast.Node) bool {
+			if ta, ok := m.(*ast.TypeAssertExpr); ok && ta.Type != nil && irTypeName(info.TypeOf(ta.Type)) == "VectorType" {
+				vecTest = true
+			}
+			return !vecTest
+		})
+		cons := fn.id() + ":flat[index]"
+		if vecTest {
+			r.ok(rule, cons, c.pos(fn.Decl.Pos()), "")
+		} else {
+			r.viol(rule, cons, c.pos(fn.Decl.Pos()), fn.id()+" folds a constant index by flattening the base constructor down to scalars and taking the index-th one, without establishing that the base is a vector: for an array of vectors, a matrix or a struct the element is the index-th COMPONENT, so the fold yields a scalar of the wrong value and type")
+		}
+	}
+	r.inst("fold.flatindex", n)
+}
